@@ -1,7 +1,8 @@
 INIT Init
 NEXT Next
 CONSTANTS
-  MaxRetry = 1
+  MaxRetryC = 1
+  MaxRetryR = 1
   MaxFail = 0
   MaxDepth <- EnvMaxDepth
   MaxKids <- EnvMaxKids
